@@ -84,7 +84,7 @@ def card_bound(vs, bits):
 # ---------------------------------------------------------------------------
 # lattices (quick / thorough)
 
-def lattice_fixed_point(tier):
+def lattice_fixed_point(tier, relu_bound=False):
   """Yields (class name, kwargs, oracle VS, oracle text, bits)."""
   if tier == "thorough":
     bits_r, int_r = range(1, 17), range(-3, 8)
@@ -112,6 +112,16 @@ def lattice_fixed_point(tier):
               use_sigmoid=sig)
     s, txt = codes_quantized_relu(bits, integer, slope)
     yield "quantized_relu", kw, s, txt, bits
+    # relu_upper_bound x is_quantized_clip: the quantized clip has
+    # precedence, so the bound is inert while is_quantized_clip is set (and
+    # when it lies above the largest code); a bound on the grid below the
+    # largest code only removes codes
+    if relu_bound and sig == 0 and slope == 0 and (
+        tier == "thorough" or bits <= 5):
+      for bound, iqc in ((p2(integer - 1), True), (p2(integer + 1), False),
+                         (p2(integer - 1), False)):
+        kw2 = dict(kw, relu_upper_bound=bound, is_quantized_clip=iqc)
+        yield "quantized_relu", kw2, s, txt, bits
   for bits, sym, real in itertools.product(bits_r, (False, True),
                                            (False, True)):
     kw = dict(bits=bits, symmetric=sym, use_real_tanh=real)
